@@ -592,6 +592,13 @@ pub fn encode_fixed_size_frame(
         frame_number,
         ..(1usize << 31)
     )?;
+    // a buffer that holds no samples (never filled, or filled with an empty
+    // block) cannot be encoded to a frame.
+    verify_range!(
+        "encode_fixed_size_frame (framebuf.filled_size)",
+        framebuf.filled_size(),
+        1..
+    )?;
 
     framebuf.verify_samples(stream_info.bits_per_sample())?;
     // NOTE: From expected use cases, wrapping `stream_info` is not practical
